@@ -31,7 +31,11 @@ type BFS struct {
 	// Check is the state oracle; it may disturb/destroy the instance.
 	Check func(in Instance, path []string)
 	// Close releases resources of an instance.
-	Close    func(in Instance)
+	Close func(in Instance)
+	// Fork (optional) returns an independent copy of a live instance (snapshot +
+	// restore). When set, the successors of a state are built by forking the replayed
+	// parent instead of replaying the path once per successor.
+	Fork     func(in Instance) Instance
 	MaxDepth int
 	Workers  int
 	// MaxStates caps the number of distinct states (0 = none).
@@ -144,10 +148,26 @@ func (b *BFS) Run() {
 							b.Close(in)
 						}
 					})
+					var parent Instance
+					if b.Fork != nil && len(ops) > 0 {
+						b.guard(n.path, func() {
+							var ok bool
+							parent, ok, _ = b.build(n.path)
+							if !ok {
+								parent = nil
+							}
+						})
+					}
 					for _, op := range ops {
 						np := append(append([]string{}, n.path...), op)
 						b.guard(np, func() {
-							in, ok, _ := b.build(n.path)
+							var in Instance
+							ok := true
+							if parent != nil {
+								in = b.Fork(parent)
+							} else {
+								in, ok, _ = b.build(n.path)
+							}
 							defer func() {
 								if b.Close != nil {
 									b.Close(in)
@@ -178,6 +198,9 @@ func (b *BFS) Run() {
 							next = append(next, node{path: np})
 							mu.Unlock()
 						})
+					}
+					if parent != nil && b.Close != nil {
+						b.Close(parent)
 					}
 				}
 			}()
